@@ -3,9 +3,9 @@ package main
 import (
 	"fmt"
 	"go/token"
-	"sort"
 	"go/types"
 	"os"
+	"sort"
 	"strings"
 
 	"golang.org/x/tools/go/ssa"
@@ -282,4 +282,85 @@ func globalNeverWritten(p *Program, name string) bool {
 		}
 	}
 	return true
+}
+
+// KEY-BYTEWISE: keys are byte strings (object-index keys are raw hash
+// prefixes, log keys end in 8 binary bytes), so nothing in the record codec or
+// the block writer/reader may iterate a string by rune: `for i := range s`
+// skips UTF-8 continuation bytes and decodes invalid sequences as U+FFFD, which
+// mis-measures common prefixes for exactly those keys.  Expected count zero;
+// the detector is exercised on a synthetic function on every run.
+func runeIterations(f *ssa.Function) []ssa.Instruction {
+	var res []ssa.Instruction
+	for _, b := range f.Blocks {
+		for _, ins := range b.Instrs {
+			switch v := ins.(type) {
+			case *ssa.Range:
+				if bt, ok := v.X.Type().Underlying().(*types.Basic); ok && bt.Info()&types.IsString != 0 {
+					res = append(res, ins)
+				}
+			case *ssa.Convert:
+				if sl, ok := v.Type().Underlying().(*types.Slice); ok {
+					if eb, ok := sl.Elem().Underlying().(*types.Basic); ok && eb.Kind() == types.Int32 {
+						if bt, ok := v.X.Type().Underlying().(*types.Basic); ok && bt.Info()&types.IsString != 0 {
+							res = append(res, ins)
+						}
+					}
+				}
+			}
+		}
+	}
+	return res
+}
+
+func checkKeyBytewise(p *Program, r *Report) {
+	// positive control: the detector sees a rune loop
+	ctl := runeControl()
+	if ctl != 2 {
+		fatalf("KEY-BYTEWISE self-test: detector found %d of 2 rune iterations in the control function", ctl)
+	}
+	cg := buildCallGraph(p)
+	var roots []*ssa.Function
+	rec := p.namedType("record")
+	iface, _ := rec.Underlying().(*types.Interface)
+	for _, f := range p.Funcs {
+		recv := f.Signature.Recv()
+		if recv == nil {
+			continue
+		}
+		rt := recv.Type()
+		name := ""
+		if pt, ok := rt.(*types.Pointer); ok {
+			rt = pt.Elem()
+		}
+		if n, ok := rt.(*types.Named); ok {
+			name = n.Obj().Name()
+		}
+		if iface != nil && (types.Implements(recv.Type(), iface) || types.Implements(types.NewPointer(rt), iface)) {
+			roots = append(roots, f)
+		}
+		switch name {
+		case "blockWriter", "blockIter", "blockReader":
+			roots = append(roots, f)
+		}
+	}
+	reach := cg.reachable(roots)
+	if len(roots) < 20 {
+		r.floor("KEY-BYTEWISE", len(roots), 20, "codec methods (record implementations, block writer/reader/iterator)")
+	}
+	n := 0
+	var fns []*ssa.Function
+	for f := range reach {
+		fns = append(fns, f)
+	}
+	sort.Slice(fns, func(i, j int) bool { return funcKey(fns[i]) < funcKey(fns[j]) })
+	for _, f := range fns {
+		for _, ins := range runeIterations(f) {
+			n++
+			r.violate("KEY-BYTEWISE", funcKey(f)+" / strings in the codec are handled byte-wise", p.pos(ins.Pos()), "a string is iterated by rune in "+funcKey(f)+", which the key codec reaches: keys hold arbitrary bytes (hash prefixes, binary log suffixes), so positions inside multi-byte sequences are skipped and common prefixes are mis-measured", nil)
+		}
+	}
+	if n == 0 {
+		r.ok("KEY-BYTEWISE", "record codec / strings in the codec are handled byte-wise", fmt.Sprintf("no rune iteration or []rune conversion in the %d functions reachable from %d codec methods (detector control: 2 of 2)", len(reach), len(roots)))
+	}
 }
